@@ -7,10 +7,15 @@
 #include "valloc.h"
 #include "vpeer.h"
 #include "vs.h"
+#include <arpa/inet.h>
+#include <errno.h>
+#include <fcntl.h>
+#include <netinet/in.h>
 #include <pthread.h>
 #include <stdlib.h>
 #include <string.h>
 #include <sys/socket.h>
+#include <sys/un.h>
 #include <unistd.h>
 
 // ---- ledger ---------------------------------------------------------------
@@ -695,6 +700,210 @@ run_s8(void *arg)
 	vh_fini();
 }
 
+// ---- S16: a byte stream with writes queued behind a stalled one: close / peer loss / cancel -------
+// nng_stream (socket://, ipc, tcp, ws) towards a raw peer that does not read.  Three sends larger
+// than the kernel buffers and one receive are pending, so at least one send sits in the
+// connection's write queue behind a partially written one.  Then the stream is closed, or the peer
+// goes away, or a queued send is cancelled and the peer starts reading - optionally racing with a
+// cancel of another operation.  Every one of the four operations must complete exactly once, with
+// a result from the allowed set, within bounded virtual time.
+enum { S16_SOCKFD, S16_IPC, S16_TCP, S16_WS };
+static const char *S16N[] = { "socketfd", "ipc", "tcp", "ws" };
+static op          S16[4];
+static void *
+s16_canceller(void *a)
+{
+	nng_aio_cancel(((op *) a)->aio);
+	return NULL;
+}
+static void
+run_s16(void *arg)
+{
+	int tran = (int) (intptr_t) arg;
+	if (tran == S16_TCP || tran == S16_WS)
+		vs_tcp_grace_us = 1500;
+	vh_init(0);
+	memset(S16, 0, sizeof(S16));
+	nng_stream_listener *sl;
+	nng_aio             *acc;
+	int                  fd = -1, port = 0, sv[2];
+	char                 path[160] = "", url[200];
+	switch (tran) {
+	case S16_SOCKFD:
+		if (socketpair(AF_UNIX, SOCK_STREAM, 0, sv) != 0)
+			vs_fail("harness:setup", "socketpair");
+		VH_OK(nng_stream_listener_alloc(&sl, "socket://"));
+		break;
+	case S16_IPC:
+		snprintf(path, sizeof(path), "%s/c02s16-%d", vx_rundir(), (int) getpid());
+		snprintf(url, sizeof(url), "ipc://%s", path);
+		VH_OK(nng_stream_listener_alloc(&sl, url));
+		break;
+	case S16_TCP:
+		VH_OK(nng_stream_listener_alloc(&sl, "tcp://127.0.0.1:0"));
+		break;
+	default:
+		VH_OK(nng_stream_listener_alloc(&sl, "ws://127.0.0.1:0/s16"));
+		break;
+	}
+	VH_OK(nng_stream_listener_listen(sl));
+	VH_OK(nng_aio_alloc(&acc, NULL, NULL));
+	nng_stream_listener_accept(sl, acc);
+	if (tran == S16_SOCKFD) {
+		VH_OK(nng_stream_listener_set_int(sl, NNG_OPT_SOCKET_FD, sv[0]));
+		fd = sv[1];
+	} else if (tran == S16_IPC) {
+		struct sockaddr_un sa;
+		memset(&sa, 0, sizeof(sa));
+		sa.sun_family = AF_UNIX;
+		snprintf(sa.sun_path, sizeof(sa.sun_path), "%s", path);
+		fd = socket(AF_UNIX, SOCK_STREAM, 0);
+		if (connect(fd, (struct sockaddr *) &sa, sizeof(sa)) != 0)
+			vs_fail("harness:peer", "ipc connect: %s", strerror(errno));
+	} else {
+		VH_OK(nng_stream_listener_get_int(sl, NNG_OPT_BOUND_PORT, &port));
+		struct sockaddr_in sa;
+		memset(&sa, 0, sizeof(sa));
+		sa.sin_family      = AF_INET;
+		sa.sin_port        = htons((uint16_t) port);
+		sa.sin_addr.s_addr = htonl(INADDR_LOOPBACK);
+		fd                 = socket(AF_INET, SOCK_STREAM, 0);
+		int small          = 4096;
+		setsockopt(fd, SOL_SOCKET, SO_RCVBUF, &small, sizeof(small));
+		if (connect(fd, (struct sockaddr *) &sa, sizeof(sa)) != 0)
+			vs_fail("harness:peer", "tcp connect: %s", strerror(errno));
+	}
+	fcntl(fd, F_SETFL, fcntl(fd, F_GETFL) | O_NONBLOCK);
+	vs_settle();
+	if (tran == S16_WS) {
+		static const char req[] =
+		    "GET /s16 HTTP/1.1\r\nHost: 127.0.0.1\r\nUpgrade: websocket\r\n"
+		    "Connection: Upgrade\r\nSec-WebSocket-Key: dGhlIHNhbXBsZSBub25jZQ==\r\n"
+		    "Sec-WebSocket-Version: 13\r\n\r\n";
+		char resp[1024];
+		vp_write_all(fd, req, sizeof(req) - 1);
+		vs_settle();
+		vs_sleep(2);
+		if (vp_read_avail(fd, resp, sizeof(resp)) < 12 ||
+		    memcmp(resp, "HTTP/1.1 101", 12) != 0)
+			vs_fail("harness:peer", "ws upgrade");
+	}
+	nng_aio_wait(acc);
+	if (nng_aio_result(acc) != 0)
+		vs_fail("harness:setup", "stream accept: %d", nng_aio_result(acc));
+	nng_stream *st = nng_aio_get_output(acc, 0);
+	size_t       sz   = (tran == S16_TCP || tran == S16_WS) ? (3u << 20) : (512u << 10);
+	uint8_t     *sbuf = malloc(sz);
+	static char  rbuf[64];
+	memset(sbuf, 0x6b, sz);
+	for (int i = 0; i < 4; i++) {
+		VH_OK(nng_aio_alloc(&S16[i].aio, op_cb, &S16[i]));
+		nng_iov iov = { .iov_buf = i ? (void *) sbuf : (void *) rbuf,
+			.iov_len         = i ? sz : sizeof(rbuf) };
+		nng_aio_set_iov(S16[i].aio, 1, &iov);
+		nng_aio_set_timeout(S16[i].aio, 400);
+		S16[i].timeout   = 400;
+		S16[i].t_start   = vs_now();
+		S16[i].submitted = 1;
+		if (i == 0)
+			nng_stream_recv(st, S16[i].aio);
+		else
+			nng_stream_send(st, S16[i].aio);
+	}
+	vs_settle();
+	int pending0 = 0;
+	for (int i = 0; i < 4; i++)
+		pending0 += S16[i].ncb == 0;
+	int how    = vs_choose(VK_ENV, 4); // close / peer closes / cancel #3 then peer drains / stop
+	int racer  = vs_choose(VK_ENV, 3); // nobody / cancel of the receive / cancel of send #2
+	pthread_t tc;
+	int64_t   t0 = vs_now();
+	vs_window(1);
+	if (racer)
+		pthread_create(&tc, NULL, s16_canceller, &S16[racer == 1 ? 0 : 2]);
+	switch (how) {
+	case 0:
+		nng_stream_close(st);
+		break;
+	case 1:
+		close(fd);
+		fd = -1;
+		break;
+	case 2:
+		nng_aio_cancel(S16[3].aio);
+		break;
+	default:
+		nng_stream_stop(st);
+		break;
+	}
+	if (racer)
+		pthread_join(tc, NULL);
+	vs_settle();
+	vs_window(0);
+	if (how == 2) {
+		// the peer reads everything: the sends that were not cancelled go through
+		static uint8_t junk[1 << 16];
+		for (int idle = 0; idle < 3;) {
+			ssize_t n = vp_read_avail(fd, junk, sizeof(junk));
+			if (n < 0)
+				break;
+			if (n == 0) {
+				idle++;
+				vs_settle();
+			} else
+				idle = 0;
+		}
+	}
+	vs_sleep(100);
+	int done = 0;
+	for (int i = 0; i < 4; i++)
+		done += S16[i].ncb == 1;
+	if (how != 2 && done != 4) {
+		int first = -1;
+		for (int i = 0; i < 4; i++)
+			if (S16[i].ncb == 0 && first < 0)
+				first = i;
+		vs_fail("C02:never-completes:stream-teardown",
+		    "%s stream, %s: 100 ms later %d of 4 operations have completed; %s #%d "
+		    "is still pending (%d were pending before)",
+		    S16N[tran],
+		    how == 0       ? "nng_stream_close"
+		        : how == 1 ? "peer closed"
+		                   : "nng_stream_stop",
+		    done, first ? "send" : "recv", first, pending0);
+	}
+	vs_sleep(400); // every timeout has passed by now
+	static const int ok[] = { 0, NNG_ECANCELED, NNG_ETIMEDOUT, NNG_ECONNSHUT,
+		NNG_ECLOSED, NNG_ECONNRESET, NNG_ESTOPPED };
+	char oc[40] = "";
+	for (int i = 0; i < 4; i++) {
+		if (S16[i].ncb != 1)
+			vs_fail("C02:callback-count",
+			    "%s stream: %s #%d had %d callbacks %lld ms after the event",
+			    S16N[tran], i ? "send" : "recv", i, S16[i].ncb,
+			    (long long) (vs_now() - t0));
+		allowed(&S16[i], i ? "stream send" : "stream recv", ok, 7);
+		if (S16[i].result == 0 && i && nng_aio_count(S16[i].aio) == 0)
+			vs_fail("C02:result-without-effect", "stream send 0 with 0 bytes");
+		snprintf(oc + strlen(oc), sizeof(oc) - strlen(oc), "%d,", S16[i].result);
+	}
+	vs_outcome("%s how=%d racer=%d %s", S16N[tran], how, racer, oc);
+	for (int i = 0; i < 4; i++)
+		nng_aio_free(S16[i].aio);
+	nng_aio_free(acc);
+	nng_stream_close(st);
+	nng_stream_stop(st);
+	nng_stream_free(st);
+	nng_stream_listener_close(sl);
+	nng_stream_listener_free(sl);
+	if (fd >= 0)
+		close(fd);
+	if (path[0])
+		unlink(path);
+	free(sbuf);
+	vh_fini();
+}
+
 // ---- S10: user-written provider: timeout || nng_aio_free || unrelated timer ----------------
 // the provider's cancel function completes the operation and then keeps using the aio for a
 // moment (cleanup); nng_aio_free called after the completion callback must not return - and the
@@ -1125,5 +1334,10 @@ main(int argc, char **argv)
 	explore("S8-stream-write-cancel", run_s8, (void *) 0, p, t, sw, tot);
 	explore("S8-stream-close-cancel", run_s8, (void *) 1, p, t, sw, tot);
 	explore("S8-stream-idle-cancel", run_s8, (void *) 2, p, t, sw, tot);
+	for (int tr = 0; tr < (T ? 4 : 3); tr++) { // (ws: the 64 KB frames never stall; thorough only)
+		char nm[64];
+		snprintf(nm, sizeof(nm), "S16-stream-queued-writes-%s", S16N[tr]);
+		explore(strdup(nm), run_s16, (void *) (intptr_t) tr, 1, 0, 1, T ? 2 : 1);
+	}
 	return vx_finish();
 }
